@@ -168,6 +168,11 @@ uint64_t cmb_wtdsummary_merge(struct cmb_wtdsummary *tgt,
     ts->count = dsp1->count + dsp2->count;
     ts->min = (dsp1->min < dsp2->min) ? dsp1->min : dsp2->min;
     ts->max = (dsp1->max > dsp2->max) ? dsp1->max : dsp2->max;
+    if (ts->count == 0u) {
+        /* Both are empty, and so is the result. Avoid dividing by zero. */
+        *tgt = tws;
+        return ts->count;
+    }
 
     const double w1 = ws1->wsum;
     const double w2 = ws2->wsum;
